@@ -106,7 +106,7 @@ class Describer:
             if len(ks) > 1:
                 tag = self.ev(z3.Select(E.arr(st, "T|%s|%s" % (f, fk), z3.IntSort(), z3.IntSort()), rt)).as_long()
                 if not (0 <= tag < len(ks)):
-                    tag = 0
+                    tag = len(ks) - 1
                 k = ks[tag]
             else:
                 k = ks[0]
@@ -298,7 +298,8 @@ def native_namespace(R=None):
     import re as _re
     ns = {"implies": lambda a, b: (not a) or b, "math": math,
           "fullmatch": lambda pat, s: isinstance(s, str) and _re.fullmatch(pat, s) is not None,
-          "fresh": lambda x: True}
+          "fresh": lambda x: True,
+          "is_prefix": lambda a, b: list(b[:len(a)]) == list(a)}
     for name, sf in R.specfns.items():
         def mk(sf=sf):
             def f(*args):
